@@ -106,6 +106,15 @@ def parseBytes : Nat → List Bool → Option (List Nat × List Bool)
 def padsOk (bytes : List Nat) : Bool :=
   (bytes.zipIdx).all fun (b, i) => b == (if i % 2 == 0 then 0xEC else 0x11)
 
+/-- what must follow the segment: the terminator of min(4, remaining) zero bits, zero bits to the byte
+boundary (`used` = number of bits before `rest`), then only alternating pad codewords -/
+def tailOk (used : Nat) (rest : List Bool) : Bool :=
+  let t := min 4 rest.length
+  let padBits := (8 - (used + t) % 8) % 8
+  let zeros := rest.take (t + padBits)
+  zeros.length == t + padBits && !zeros.any id &&
+    (rest.drop (t + padBits)).length % 8 == 0 && padsOk (packBytes (rest.drop (t + padBits)))
+
 /-- Parses the data codewords (as bits) of a version-`v` symbol as exactly one segment followed by
 terminator, bit padding and pad codewords. -/
 def parse (v : Nat) (bits : List Bool) : Option Parsed :=
@@ -126,16 +135,6 @@ def parse (v : Nat) (bits : List Bool) : Option Parsed :=
       | .byte => parseBytes cnt b2
     match r with
     | none => none
-    | some (chars, rest) =>
-      -- terminator: min(4, remaining) zero bits, then zero bits to the byte boundary
-      let used := bits.length - rest.length
-      let t := min 4 rest.length
-      let afterT := used + t
-      let padBits := (8 - afterT % 8) % 8
-      let zeros := rest.take (t + padBits)
-      if zeros.length ≠ t + padBits ∨ zeros.any id then none else
-      let padBytes := packBytes (rest.drop (t + padBits))
-      if (rest.drop (t + padBits)).length % 8 ≠ 0 ∨ !padsOk padBytes then none else
-      some ⟨m, chars⟩
+    | some (chars, rest) => if tailOk (bits.length - rest.length) rest then some ⟨m, chars⟩ else none
 
 end FastQr.Spec.Bitstream
